@@ -124,8 +124,9 @@ def check(dev_names, ranges, explicit, res):
     if np.max(np.abs(np.array(fixed) - np.array([R0, 0.0, 0.0]))) > 1e-12:
         res.violation("C12|TDM|fixed-values", f"compiled circuit carries hard-coded values {fixed}, layout says {[R0, 0.0, 0.0]}", case)
     params = [list(map(float, a)) for a in out.tdm_params]
-    if params != [list(map(float, a)) for a in arrays]:
-        res.violation("C12|TDM|arrays-changed", "the TDM compiler changed the parameter arrays of a conforming program", case)
+    src = [list(map(float, a)) for a in arrays]
+    if len(params) != len(src) or any(len(x) != len(y) or any(abs(((u - v) + PI) % (2 * PI) - PI) > 1e-9 for u, v in zip(x, y)) for x, y in zip(params, src)):
+        res.violation("C12|TDM|arrays-changed", "the TDM compiler changed the parameter arrays of a conforming program (beyond multiples of 2 pi)", case)
     return True
 
 
